@@ -107,6 +107,69 @@ KEEP_BUILTINS = {"min", "max", "sum", "abs", "tuple", "list", "sorted", "zip", "
                  "next", "iter", "dict"}
 
 
+FLOAT_MARKERS = ("math.pi", "math.sin", "math.cos", "math.sqrt", "math.tan", "math.exp", "math.log", "np.polynomial",
+                 "np.cos", "np.sin", "np.sqrt", "np.pi", "np.linalg.solve", "np.linalg.inv", "np.roots", "np.linspace",
+                 "np.float64", "np.random")
+_PYNURBS_FLOAT = None
+
+
+def pynurbs_float_functions():
+    """names of the functions of the installed pynurbs package that produce floats whatever they are given: their
+    source (read, not imported) refers to a floating-point primitive, directly or through another pynurbs function"""
+    global _PYNURBS_FLOAT
+    if _PYNURBS_FLOAT is not None:
+        return _PYNURBS_FLOAT
+    import glob
+    import importlib.util
+    import os
+    out, bodies = set(), {}
+    try:
+        spec = importlib.util.find_spec("pynurbs")
+        root = os.path.dirname(spec.origin) if spec and spec.origin else None
+    except (ImportError, ValueError):
+        root = None
+    for path in (glob.glob(os.path.join(root, "*.py")) if root else []):
+        try:
+            tree = ast.parse(open(path).read())
+        except (SyntaxError, OSError):
+            continue
+        for n in ast.walk(tree):
+            if isinstance(n, ast.FunctionDef):
+                bodies.setdefault(n.name, []).append(n)
+    def refs(fn_nodes):
+        txt, called = set(), set()
+        for f in fn_nodes:
+            for x in ast.walk(f):
+                if isinstance(x, ast.Attribute):
+                    try:
+                        txt.add(ast.unparse(x))
+                    except Exception:
+                        pass
+                if isinstance(x, ast.Call):
+                    if isinstance(x.func, ast.Attribute):
+                        called.add(x.func.attr)
+                    elif isinstance(x.func, ast.Name):
+                        called.add(x.func.id)
+                        if x.func.id == "float":
+                            txt.add("float(")
+        return txt, called
+    info = {name: refs(nodes) for name, nodes in bodies.items()}
+    for name, (txt, called) in info.items():
+        if any(t.startswith(FLOAT_MARKERS) for t in txt):
+            out.add(name)
+    # one step of propagation, for wrappers such as IntegratorArray.chebyshev -> NodeSample.chebyshev; names that are
+    # too generic to identify a function are not followed
+    direct = set(out) - {"solve", "invert", "eval", "__init__", "__call__", "__new__", "__add__", "__or__", "__radd__",
+                         "__truediv__", "clean", "degree", "curve", "lenght", "spline", "bezier"}
+    out = set(direct)
+    for name, (txt, called) in info.items():
+        if called & direct:
+            out.add(name)
+    out -= {"__init__", "__call__", "__new__", "__add__", "__or__", "__radd__", "__truediv__"}
+    _PYNURBS_FLOAT = out
+    return out
+
+
 class ExactEngine:
     def __init__(self, ctx):
         self.ctx = ctx
@@ -392,6 +455,10 @@ class X:
                         k2 = join(k2, self.ev(e.func.value))
                     return k2 if k2 != "B" else "S"
                 return k
+        if f.startswith("pynurbs.") and last in pynurbs_float_functions() and last not in (
+                "open_newton_cotes", "closed_newton_cotes", "bezier", "Curve", "split", "knot_clean", "spline",
+                "derivate_nonrational_bezier"):
+            return "F"            # e.g. gauss_legendre / chebyshev nodes and weights are floats whatever the input
         if f.startswith(("np.", "pynurbs.")) or last in ("open_newton_cotes", "bezier", "Curve", "split", "knot_clean"):
             return allk if allk != "B" else "Q"       # trusted base: preserves the kind of its arguments
         if f in KEEP_BUILTINS or isinstance(e.func, ast.Attribute):
